@@ -200,6 +200,9 @@ func emitCase(out *gal.Out, mode string, fd *FileDef, ei int, res *pkgResult, pl
 			"; k_parses := " + gal.ListOf(obs.Parses, func(p parseOut) string {
 			return "(" + gStr(p.S) + ", (" + gRes(p.P) + ", (" + gRes(p.PS) + ", " + gRes(p.PG) + ")))"
 		}) +
+			"; k_odd := " + gal.ListOf(obs.Odd, func(o oddOut) string {
+			return "({| dty := " + gStr(o.In.Ty) + "; dval := " + gPayloadJ(o.In.P) + " |}, (" + gRes(o.P) + ", " + gRes(o.PG) + "))"
+		}) +
 			"; k_hist := " + gal.ListOf(obs.Hist, func(h histEv) string {
 			if h.What == "values" {
 				return "(HWriteValues " + gal.Nat(h.I) + " " + gZ(h.X) + ")"
